@@ -29,7 +29,9 @@ for d in sorted(glob.glob("/verif/seeded/*/")):
             verdict = "CAUGHT" if r.returncode == 1 and "VIOLATION" in out else ("HARNESS-ERROR" if r.returncode == 3 else "MISSED")
             cur[cid] = {"verdict": verdict, "rc": r.returncode, "signatures": sigs[:3], "wall_s": round(time.time()-t0, 1)}
             print(sid, cid, verdict, "rc=%d" % r.returncode, "%.0fs" % (time.time()-t0), (sigs[:1] or [""])[0][:160], flush=True)
-            if verdict != "CAUGHT":
+            if verdict != "CAUGHT" and m.get("not_caught_by_design"):
+                print(sid, cid, "EXPECTED-MISS (see meta.json / DESIGN 10.5)", flush=True)
+            elif verdict != "CAUGHT":
                 missed.append((sid, cid))
     finally:
         subprocess.run(["git","-C","/repo","checkout","--","."],check=True); subprocess.run(["git","-C","/repo","clean","-fdq"],check=True)
